@@ -10,9 +10,9 @@
  *   MODE        what is asserted: M_GET lookups (ini_val_get + ini_vali_get), M_ENUM enumeration order,
  *               M_GEN calc_size/gen/short buffer (GCAP = capacity handed to ini_buf_gen), M_RT text round trip.
  *
- * Environment stubs (part of the claim, see META): calloc/realloc/reallocarray/free. Under CBMC every record is an
- * object of the concrete capacity REC_BYTES (a symbolic allocation size is intractable); the requested size must fit
- * (asserted). An overrun of the *requested* size that stays inside REC_BYTES is therefore not seen here (memory safety
+ * Environment stubs (part of the claim, see META): calloc/realloc/reallocarray/free. Under CBMC every record is a
+ * typed object of the concrete capacity sizeof(ini_line_t) + MAXDATA + 16 (a symbolic allocation size is intractable); the requested size must fit
+ * (asserted). An overrun of the *requested* size that stays inside that capacity is therefore not seen here (memory safety
  * of ini.c is C12's subject); overruns of caller buffers (ini_buf_gen output, query strings, text) are seen because
  * those are exactly sized objects. realloc moves or keeps the block as chosen by IN (both real behaviours).
  * In the native replay the real libc allocator is used.
@@ -29,8 +29,6 @@
 #define NSET 0
 #endif
 #define MAXDATA 24				/* largest record payload any shape here needs (asserted) */
-#define REC_BYTES (64 + MAXDATA + 16)		/* sizeof(ini_line_t) + payload + INI_LINE_ALLOC_PADDING */
-#define LINES_BYTES (64 * sizeof(void *))	/* INI_LINES_PREALLOC pointers */
 
 #define M_GET 1
 #define M_ENUM 2
@@ -47,43 +45,76 @@ struct in_s {
 #include "verif_in.h"
 
 /* ---------------- allocation stubs ---------------- */
-static unsigned v_realloc_calls;
 #ifndef REPLAY
-static void *v_calloc(size_t n, size_t sz) {
-	size_t want = n * sz;
-	if (want == 24) { void *p = malloc(24); __CPROVER_assume(p != 0); memset(p, 0, 24); return (p); }	/* ini_t */
-	V_ASSERT(want <= REC_BYTES, "HARNESS record fits the concrete capacity");
-	void *p = malloc(REC_BYTES);
-	__CPROVER_assume(p != 0);
-	memset(p, 0, REC_BYTES);
-	return (p);
-}
-static void *v_realloc(void *old, size_t sz) {
-	V_ASSERT(sz <= REC_BYTES, "HARNESS record fits the concrete capacity");
-	unsigned c = v_realloc_calls++;
-	if (c < 4 && (IN.realloc_moves[c] & 1)) {
-		void *p = malloc(REC_BYTES);
-		__CPROVER_assume(p != 0);
-		memcpy(p, old, REC_BYTES);
-		free(old);
-		return (p);
-	}
-	return (old);
-}
-static void *v_reallocarray(void *old, size_t n, size_t sz) {
-	V_ASSERT(old == NULL && n * sz == LINES_BYTES, "HARNESS lines array is allocated once with INI_LINES_PREALLOC entries");
-	void *p = malloc(LINES_BYTES);
-	__CPROVER_assume(p != 0);
-	return (p);
-}
-#define calloc v_calloc
+static void *v_calloc_ini(size_t n, size_t sz);
+static void *v_calloc_rec(size_t n, size_t sz);
+static void *v_realloc(void *old, size_t sz);
+static void *v_reallocarray(void *old, size_t n, size_t sz);
+static void *v_memset(void *p, int c, size_t n);
+/* two call sites: calloc(1, sizeof(ini_t)) and calloc(1, <record size>); separate stubs keep the points-to sets apart */
+#define calloc(n, sz) (__builtin_constant_p(sz) ? v_calloc_ini((n), (sz)) : v_calloc_rec((n), (sz)))
 #define realloc v_realloc
 #define reallocarray v_reallocarray
+#define memset v_memset		/* only realloc_items() zeroing the fresh lines array goes through this */
 #endif
 
 #include "utils/mem_utils.h"
 #include "utils/buf_str.c"
 #include "utils/ini.c"
+
+#ifndef REPLAY
+/* typed objects (a byte-array object makes every field / lines[i] access a byte-level extraction) */
+struct v_rec { ini_line_t hdr; uint8_t data[MAXDATA + INI_LINE_ALLOC_PADDING]; };
+/* LINES_TAB <= INI_LINES_PREALLOC pointers are materialised: the code asks for 64; handing out a SHORTER object is sound
+ * for a HOLD verdict because any access past entry LINES_TAB-1 is an object-bounds violation and is reported. */
+#define LINES_TAB (NLN + 2 * NSET + 2)
+struct v_lines { ini_line_p p[LINES_TAB]; };
+static struct v_lines *v_last_lines;
+static unsigned v_realloc_calls;
+static void *v_calloc_ini(size_t n, size_t sz) {
+	V_ASSERT(n * sz == sizeof(ini_t), "HARNESS constant-size calloc is the ini_t");
+	ini_t *p = malloc(sizeof(ini_t));
+	__CPROVER_assume(p != 0);
+	p->lines = NULL; p->lines_count = 0; p->lines_allocated = 0;
+	return (p);
+}
+static void *v_calloc_rec(size_t n, size_t sz) {
+	size_t want = n * sz;
+	V_ASSERT(want >= sizeof(ini_line_t) && want <= sizeof(struct v_rec), "HARNESS record fits the concrete capacity");
+	struct v_rec *r = malloc(sizeof(struct v_rec));
+	__CPROVER_assume(r != 0);
+	r->hdr.data = NULL; r->hdr.data_size = 0; r->hdr.data_allocated_size = 0; r->hdr.type = 0;
+	r->hdr.name = NULL; r->hdr.name_size = 0; r->hdr.val = NULL; r->hdr.val_size = 0;
+	for (size_t i = 0; i < sizeof(r->data); i++) r->data[i] = 0;
+	return (r);
+}
+static void *v_realloc(void *old, size_t sz) {
+	V_ASSERT(sz <= sizeof(struct v_rec), "HARNESS record fits the concrete capacity");
+	unsigned c = v_realloc_calls++;
+	if (c < 4 && (IN.realloc_moves[c] & 1)) {
+		struct v_rec *r = malloc(sizeof(struct v_rec));
+		__CPROVER_assume(r != 0);
+		*r = *(struct v_rec *)old;
+		free(old);
+		return (r);
+	}
+	return (old);
+}
+static void *v_reallocarray(void *old, size_t n, size_t sz) {
+	V_ASSERT(old == NULL && n * sz == INI_LINES_PREALLOC * sizeof(ini_line_p), "HARNESS lines array is allocated once with INI_LINES_PREALLOC entries");
+	struct v_lines *p = malloc(sizeof(struct v_lines));
+	__CPROVER_assume(p != 0);
+	v_last_lines = p;
+	return (p);
+}
+#undef memset
+static void *v_memset(void *p, int c, size_t n) {
+	/* realloc_items: memset(new_array + 0, 0, 64 * sizeof(ptr)) right after reallocarray */
+	V_ASSERT(p == (void *)v_last_lines && c == 0 && n == INI_LINES_PREALLOC * sizeof(ini_line_p), "HARNESS memset only zeroes the fresh lines array");
+	for (size_t i = 0; i < LINES_TAB; i++) v_last_lines->p[i] = NULL;
+	return (p);
+}
+#endif
 
 /* ---------------- shape ---------------- */
 static const uint8_t v_lens[NLN] = { LENS };
